@@ -221,7 +221,7 @@ def serialisation_instances(ctx):
   order = kwarg(enc, "order")
   val = order.value if isinstance(order, ast.Constant) else (
       src(order) if order is not None else None)
-  ctx.check(val == "deterministic", "Encoder:order", PICKLE, enc.lineno,
+  ctx.check(val in ("deterministic", "sorted"), "Encoder:order", PICKLE, enc.lineno,
             f"msgspec Encoder is built with order={val!r}; sets and dicts "
             "(SerializableAst.dependencies holds set[str]) are then encoded in "
             "hash order", {"order": val})
